@@ -159,8 +159,8 @@ KINDS = ["pointcloud", "polyline", "surface:tri", "surface:poly", "surface:any",
 def cases(seed, tier):
     rng = random.Random(seed * 104729 + 4)
     out = _anchors() + _crash_cases()
-    n = 260 if tier == "quick" else 9000
-    sizes = [1, 2, 3] if tier == "quick" else [1, 2, 3, 4, 6]
+    n = 264 if tier == "quick" else 24000
+    sizes = [1, 2, 3] if tier == "quick" else [1, 2, 3, 4, 6, 8]
     for i in range(n):
         kind = KINDS[i % len(KINDS)]
         base = kind.split(":")[0]
